@@ -265,6 +265,8 @@ class Builder:
             for param in parameter_args
         ]
         parameter_dict = {param.name: param for param in parameter_list}
+        if len(parameter_dict) != len(parameter_list):
+            raise JaqalError(f"Macro {name} has two parameters with the same name")
         macro_context = {
             **context,
             **parameter_dict,
